@@ -1333,6 +1333,54 @@ fn run_tier_b(world: &World, smol: bool, thorough: bool) -> Verdict {
     Ok(world.borrow_mut().scenario.take())
 }
 
+/// C07 over the real transports: duplex connections on real tokio / smol Unix sockets whose
+/// receivers abandon pending receives (at every suspension point the transport crates' read halves
+/// have) and start over. Same worlds, scheduler and oracle as tier B; classes are reported under
+/// C07 because what is judged is cancel safety of receive.
+pub fn run_receive_abandonment_on_real_sockets(world: &World, smol: bool) -> Verdict {
+    let plan = {
+        let mut w = world.borrow_mut();
+        w.cfg = Cfg::plain();
+        let t = &mut w.tape;
+        let n = 1 + t.draw(2);
+        let mut budget = (1usize << 18, 1usize);
+        let start = budget.0;
+        let mut conns = Vec::new();
+        for _ in 0..n {
+            let how = if t.draw(3) == 0 { How::Bound } else { How::Pair };
+            let sndbuf = if how == How::Pair { [None, Some(4096), Some(16_384)][t.draw(3)] } else { None };
+            let sb = sndbuf.unwrap_or(212_992);
+            let class = [0, 0, 1, 4, 2][t.draw(5)];
+            let n_max = if class >= 2 { 3 } else { 8 };
+            let a2b = gen_ops_b(t, n_max, class, sb, &mut budget, 100_000, false);
+            let back = if t.draw(2) == 0 { class } else { 0 };
+            let b2a = gen_ops_b(t, n_max, back, sb, &mut budget, 100_000, true);
+            let recv_cancel = match t.draw(4) {
+                0 => CancelPlan::Prob(1, 2),
+                1 => CancelPlan::Prob(1, 4),
+                2 => CancelPlan::EveryKth(1),
+                _ => CancelPlan::EveryKth(2 + t.draw(3)),
+            };
+            conns.push(ConnPlan { how, sndbuf, style: Style::Duplex { a2b, b2a, close_first: t.draw(2), recv_cancel } });
+        }
+        let weights = match t.draw(3) {
+            0 => [2, 2, 2, 1],
+            1 => [1, 8, 1, 1],
+            _ => [1, 1, 8, 2],
+        };
+        let plan = Plan { conns, weights, total_bytes: start - budget.0 };
+        w.step_cap = 40_000 + (plan.total_bytes as u64) / 4;
+        if w.want_sample {
+            w.scenario = Some(describe_plan(&plan, if smol { "smol" } else { "tokio" }));
+        }
+        w.stat(if smol { "real_socket_runs.smol" } else { "real_socket_runs.tokio" });
+        plan
+    };
+    let r = if smol { block_on_local(scenario::<SmolB>(world, &plan)) } else { RT.with(|rt| rt.block_on(scenario::<TokioB>(world, &plan))) };
+    r.map_err(|(c, m)| (c.replacen("C19/", "C07/", 1), format!("over real {} Unix sockets: {m}", if smol { "smol" } else { "tokio" })))?;
+    Ok(world.borrow_mut().scenario.take())
+}
+
 impl Prop for EndToEnd {
     fn id(&self) -> &'static str {
         "C19"
